@@ -365,6 +365,55 @@ type seqReplay struct {
 	Scenario scenario
 }
 
+// freePart: every sequence (not only permutations plus one extra) of pushes and external connects up to a
+// length bound, so that several extras combine: e.g. a buffered copy whose parent and then itself are
+// connected through another route before a second copy of it arrives.
+func freePart(c *core.Ctx, n, maxLen int) {
+	shapes := allShapes(n)
+	inf := dag.Metric{Num: math.MaxUint32, Size: math.MaxUint64}
+	var alpha []op
+	for e := 0; e < n; e++ {
+		alpha = append(alpha, op{opPush, e}, op{opExt, e})
+	}
+	c.Parallel(len(shapes)*len(alpha), func(k int) {
+		sh := shapes[k/len(alpha)]
+		first := alpha[k%len(alpha)]
+		var rec func(seq []op)
+		rec = func(seq []op) {
+			if c.OutOfBudget() {
+				return
+			}
+			pushes := 0
+			for _, o := range seq {
+				if o.K == opPush {
+					pushes++
+				}
+			}
+			if pushes > 0 {
+				for _, sc := range []scenario{{Shape: sh, Ops: seq, Limit: inf}, {Shape: sh, Ops: seq, Limit: dag.Metric{Num: 1, Size: math.MaxUint64}}} {
+					bad, feasible, log := runSeq(sc)
+					if !feasible {
+						return // an infeasible external connect: no extension is feasible either
+					}
+					c.Count("evaluations", 1)
+					c.Count("free_sequences", 1)
+					c.Count("distinct_nontrivial", 1)
+					if bad != "" {
+						c.Violation(sig(bad), seqReplay{sc}, "%s\n  scenario: %s\n  callbacks: %s", bad, sc, strings.Join(log, " "))
+					}
+				}
+			}
+			if len(seq) == maxLen {
+				return
+			}
+			for _, o := range alpha {
+				rec(append(append([]op{}, seq...), o))
+			}
+		}
+		rec([]op{first})
+	})
+}
+
 func seqPart(c *core.Ctx, n int, extras bool, pairs bool) {
 	shapes := allShapes(n)
 	c.Parallel(len(shapes), func(si int) {
@@ -613,6 +662,8 @@ func main() {
 		seqPart(c, 2, true, true)
 		seqPart(c, 3, true, true)
 		seqPart(c, 4, true, false)
+		freePart(c, 2, 5)
+		freePart(c, 3, 5)
 		concPart(c, 2, 3, false)
 		c.Set("bounds", "sequential: all DAG shapes with 2-4 nodes x all push orders x extras x limits x failures; concurrent: all 3-node shapes, deviation bound 2")
 	} else {
@@ -620,6 +671,8 @@ func main() {
 		seqPart(c, 3, true, true)
 		seqPart(c, 4, true, true)
 		seqPart(c, 5, true, false)
+		freePart(c, 2, 6)
+		freePart(c, 3, 7)
 		concPart(c, 3, 3, true)
 		c.Set("bounds", "sequential: all DAG shapes with 2-5 nodes x all push orders x extras x limits x failures (pairs up to 4 nodes); concurrent: all 3-node shapes, deviation bound 3")
 	}
